@@ -2,7 +2,7 @@
 
 A unit is described by /verif/contracts/<unit>.vspec (directive syntax below).  Everything that is
 executable in the generated file is cut verbatim from /repo's current working tree; the only
-changes are (a) the closed list of syntactic normalisations N1..N14 and (b) specification text
+changes are (a) the closed list of syntactic normalisations N1..N15 and (b) specification text
 spliced at structural anchor points S1..S8.  Every change is an `Edit` with its source offset; an
 erasure self-check undoes all of them on the generated text and demands the verbatim cut back.
 
@@ -684,6 +684,21 @@ def gen_fn(d, strip_paths, mode="verify", contract_text=None, vacuity=False):
             edits.append(Edit(mm.start(1) - 1, "&" + x, "verif_ref_" + x, "norm:N4"))
             edits.append(Edit(lo + 1, "", " let " + x + " = *verif_ref_" + x + ";", "norm:N4"))
 
+    # N15: `for (i, &x) in A.iter().enumerate() {` -> `for i in 0..A.len() { let x = A[i];`   (x: Copy)
+    #      `for (i, x) in A.iter().enumerate() {`  -> `for i in 0..A.len() { let x = &A[i];`
+    # (A a place expression of Vec/slice type: it is borrowed for the whole loop in the original, so it cannot
+    # change; same indices, same elements, same order.  vstd has no specification of Enumerate.)
+    n15 = re.compile(r"for\s+(\((\w+), (&?)(\w+)\))\s+in\s+((\w+(?:\.\w+)*)\s*\.iter\(\)\s*\.enumerate\(\))\s*\{")
+    for kw, ks, lo, lc in loops:
+        if kw != "for":
+            continue
+        mm = n15.match(m, ks)
+        if mm and mm.end() - 1 == lo:
+            idx, amp, x, place = mm.group(2), mm.group(3), mm.group(4), mm.group(6)
+            edits.append(Edit(mm.start(1), text[mm.start(1) : mm.end(1)], idx, "norm:N15"))
+            edits.append(Edit(mm.start(5), text[mm.start(5) : mm.end(5)], "0.." + place + ".len()", "norm:N15"))
+            edits.append(Edit(lo + 1, "", " let " + x + " = " + ("" if amp else "&") + place + "[" + idx + "];", "norm:N15"))
+
     edits.extend(norm_macros(text, m, strip_paths))
     edits.extend(norm_closure_underscore(text, m))
     edits.extend(norm_iter_chains(text, m, body_open, body_close))
@@ -701,7 +716,7 @@ def gen_fn(d, strip_paths, mode="verify", contract_text=None, vacuity=False):
             continue
         final.append(x)
     # merge multiple zero-width insertions at the same offset deterministically by kind order
-    order = {"splice:S5": 0, "splice:S6": 0, "norm:N7": 1, "splice:S1": 2, "splice:S3": 2, "norm:N9": 2, "splice:S2": 3, "norm:N4": 3, "splice:S4": 4, "splice:S7": 2, "norm:N12": 3, "norm:N13": 1, "norm:N14": 4}
+    order = {"splice:S5": 0, "splice:S6": 0, "norm:N7": 1, "splice:S1": 2, "splice:S3": 2, "norm:N9": 2, "splice:S2": 3, "norm:N4": 3, "splice:S4": 4, "splice:S7": 2, "norm:N12": 3, "norm:N13": 1, "norm:N14": 4, "norm:N15": 3}
     final.sort(key=lambda x: (x.off, 0 if x.old == "" else 1, order.get(x.kind, 5)))
     out, placed = apply_edits(text, final)
     if erase(out, placed) != text:
